@@ -251,10 +251,12 @@ func hopTableKeys(p *Prog) (utilsKeys, serverKeys []string, ok1, ok2 bool) {
 				return
 			}
 			if k, ok := ConstString(mu.Key); ok {
-				if v, ok := mu.Value.(*ssa.Const); ok && v.Value != nil && v.Value.Kind() == constant.Bool && constant.BoolVal(v.Value) {
-					utilsKeys = append(utilsKeys, k)
-					ok1 = true
+				// membership table: map[string]bool with true, or a set (map[string]struct{})
+				if v, isC := mu.Value.(*ssa.Const); isC && v.Value != nil && v.Value.Kind() == constant.Bool && !constant.BoolVal(v.Value) {
+					return // an explicit false entry is not a member
 				}
+				utilsKeys = append(utilsKeys, k)
+				ok1 = true
 			}
 		})
 	}
